@@ -54,6 +54,11 @@ func featureRule(g *Gen) string {
 		mods = append(mods, "match-case")
 	case 3:
 		mods = append(mods, "third-party", "match-case")
+	case 4:
+		if g.Chance(1, 2) {
+			// one option or content type written in both polarities: each mention counts as a modifier
+			mods = append(mods, Pick(g, [][]string{{"match-case", "~match-case"}, {"third-party", "~third-party"}, {"script", "~script"}, {"~match-case", "match-case", "third-party"}})...)
+		}
 	}
 	switch g.Intn(5) {
 	case 0:
@@ -128,6 +133,7 @@ func init() {
 		"@@||example.org^$urlblock", "@@||example.org^$genericblock,important", "||example.org^$popup", "@@||example.org^$stealth",
 		"||example.org^$domain=example.org,script", "||example.org^$ctag=~a,script", "||example.org^$client=~Mom,script",
 		"||example.org^$denyallow=example.net,script", "||example.org^$dnstype=~A,script",
+		"||example.org^$match-case,~match-case", "||example.org^$image,~image", "||example.org^$third-party,~third-party", "||example.org^$~match-case",
 	}
 	register("c07", &Prop{
 		Gen: func(g *Gen, tier string, emit func(string)) {
